@@ -85,6 +85,7 @@ def proj_array(ta, codes=None):
     return {
         "rooting": -1 if r is None else (1 if r else 0),
         "set": {"iel": bool(ta.ignore_edge_lengths), "ina": bool(ta.ignore_node_ages), "utw": bool(ta.use_tree_weights)},
+        "dset": {"iel": bool(sd.ignore_edge_lengths), "ina": bool(sd.ignore_node_ages)},      # the embedded distribution's own settings
         "n": [len(ta._tree_split_bitmasks), len(ta._tree_edge_lengths), len(ta._tree_leafset_bitmasks), len(ta._tree_weights)],
         "splits": [[_codes(s) for s in tup] for tup in ta._tree_split_bitmasks],
         "lens": [[_sc(v, proj.LSCALE) for v in tup] for tup in ta._tree_edge_lengths],
@@ -263,12 +264,17 @@ class ShimQueue(object):
         self.asynchronous = asynchronous
         self.buffer = []
         self.pipe = []
+        self.nput = 0
 
     def put(self, obj, block=True, timeout=None):
         self.b.sync("put", self)
-        data = pickle.dumps(obj, pickle.HIGHEST_PROTOCOL)
+        num = -3
+        if isinstance(obj, str):        # a tree source: numbered in the order of the puts (the same path may be listed twice)
+            self.nput += 1
+            num = self.nput
+        data = (pickle.dumps(obj, pickle.HIGHEST_PROTOCOL), num)
         (self.buffer if self.asynchronous else self.pipe).append(data)
-        self._log("put", obj)
+        self._log("put", obj, num)
 
     def flush(self):
         """controller only: one step of the feeder thread"""
@@ -286,18 +292,19 @@ class ShimQueue(object):
                 raise AssertionError("scheduler granted a blocking get on an empty pipe")
             self.b.log.append({"p": self.b.me(), "op": op, "q": self.role, "v": -1, "n": -1, "r": -2})
             raise queue.Empty
-        obj = pickle.loads(self.pipe.pop(0))
-        self._log(op, obj)
+        data, num = self.pipe.pop(0)
+        obj = pickle.loads(data)
+        self._log(op, obj, num)
         return obj
 
-    def _log(self, op, obj):
+    def _log(self, op, obj, num=-3):
         """what travelled through the queue: file number / sentinel on the work queue; worker number, number of
         trees and rooting of the array on the results queue"""
         v, n, r = -3, -1, -2
         if obj is None:
             v = 0
         elif isinstance(obj, str):
-            v = self.files.get(obj, -3)
+            v = num
         elif isinstance(obj, BaseException):
             v = -2
         elif hasattr(obj, "_tree_split_bitmasks"):
